@@ -112,6 +112,19 @@ func (e *Exec) setupTracks() {
 			if ti.sig == nil {
 				e.unsupported("track %s: func-typed field %s not found", tr.Name, tr.Target)
 			}
+		case "result":
+			// a call of the function value returned as the i-th result of F: target "F.i"
+			i := strings.LastIndex(tr.Target, ".")
+			fn := e.c.P.Funcs[tr.Target[:i]]
+			var idx int
+			fmt.Sscan(tr.Target[i+1:], &idx)
+			if fn == nil || idx >= fn.Signature.Results().Len() {
+				e.unsupported("track %s: result %s not found", tr.Name, tr.Target)
+			}
+			ti.sig, _ = fn.Signature.Results().At(idx).Type().Underlying().(*types.Signature)
+			if ti.sig == nil {
+				e.unsupported("track %s: result %s is not a function", tr.Name, tr.Target)
+			}
 		case "global":
 			i := strings.LastIndex(tr.Target, ".")
 			for _, p := range e.c.P.Prog.AllPackages() {
@@ -171,6 +184,14 @@ func (e *Exec) matchTracks(common *ssa.CallCommon) []*trackInfo {
 			if !common.IsInvoke() {
 				if key := fieldOfCallee(common.Value); key == ti.target {
 					out = append(out, ti)
+				}
+			}
+		case "result":
+			if ex, ok := common.Value.(*ssa.Extract); ok {
+				if call, ok := ex.Tuple.(*ssa.Call); ok {
+					if f := call.Common().StaticCallee(); f != nil && fmt.Sprintf("%s.%d", shortID(f.String()), ex.Index) == ti.target {
+						out = append(out, ti)
+					}
 				}
 			}
 		case "global":
@@ -337,6 +358,13 @@ func (e *Exec) lookupCallee(common *ssa.CallCommon, fnv Val) calleeInfo {
 			keys = append(keys, "global:"+shortPath(g.Pkg.Pkg.Path())+"."+g.Name())
 		}
 	}
+	if ex, ok := common.Value.(*ssa.Extract); ok {
+		if call, ok := ex.Tuple.(*ssa.Call); ok {
+			if f := call.Common().StaticCallee(); f != nil {
+				keys = append(keys, fmt.Sprintf("result:%s.%d", shortID(f.String()), ex.Index))
+			}
+		}
+	}
 	if fv, ok := common.Value.(*ssa.FreeVar); ok {
 		keys = append(keys, shortID(e.fn.String())+"."+fv.Name())
 	}
@@ -390,6 +418,7 @@ func (e *Exec) doCall(common *ssa.CallCommon, fnv Val, recv *Val, args []Val, st
 	c := e.c
 	ci := e.lookupCallee(common, fnv)
 	sig := ci.sig
+	e.calleeSharesCells = ci.fn != nil && (ci.fn.Parent() != nil || len(ci.fn.FreeVars) > 0)
 	// coerce args to parameter types
 	all := args
 	if recv != nil {
@@ -592,7 +621,7 @@ func (e *Exec) isZapPrivateComp(n string) bool {
 	}
 	if strings.HasPrefix(n, "H:") || strings.HasPrefix(n, "E:") || strings.HasPrefix(n, "C:") {
 		rest := strings.TrimLeft(n[2:], "_")
-		for _, p := range []string{"time.", "sync_atomic.", "bufio.", "zap.", "zapcore.", "buffer.", "zapio.", "zapgrpc.", "zaptest.", "internal_", "exp_", "observer.", "zaptest_"} {
+		for _, p := range []string{"io.", "time.", "sync_atomic.", "bufio.", "zap.", "zapcore.", "buffer.", "zapio.", "zapgrpc.", "zaptest.", "internal_", "exp_", "observer.", "zaptest_"} {
 			if strings.HasPrefix(rest, p) {
 				return true
 			}
@@ -604,7 +633,12 @@ func (e *Exec) isZapPrivateComp(n string) bool {
 // preserveLocals: stack-local objects are not affected by callees.
 func (e *Exec) preserveLocals(old, new *Heap, havocked func(string) bool) {
 	c := e.c
-	for _, l := range e.locals {
+	locals := e.locals
+	if !e.calleeSharesCells {
+		// cells of captured variables are reachable only from this function and its own closures
+		locals = append(append([]localCell{}, locals...), e.captured...)
+	}
+	for _, l := range locals {
 		if havocked(l.comp) {
 			if c.hget(old, l.comp) != c.hget(new, l.comp) {
 				c.fact(fmt.Sprintf("(= (select %s %s) (select %s %s))", c.hget(new, l.comp), l.ref, c.hget(old, l.comp), l.ref))
@@ -1230,21 +1264,19 @@ func (e *Exec) builtinAppend(common *ssa.CallCommon, args []Val, st *State, pos 
 		oldC := c.hget(pre, comp)
 		newC := c.fresh(comp+"!app", c.compSortOf(comp))
 		st.heap = c.hsetRaw(st.heap, comp, newC)
-		_, dst := cell(fmt.Sprintf("(elem (sl_arr %s) %s)", r, c.add(fmt.Sprintf("(sl_off %s)", r), "i!a")))
-		_, src := cell(fmt.Sprintf("(elem (sl_arr %s) %s)", s.T, c.add(fmt.Sprintf("(sl_off %s)", s.T), "i!a")))
-		c.factUnder(st.pc, fmt.Sprintf("(forall ((i!a %s)) (! (=> (and %s %s) (= (select %s %s) (select %s %s))) :pattern ((select %s %s))))",
-			is, c.le(c.idx(0), "i!a"), c.lt("i!a", slen), newC, dst, oldC, src, newC, dst))
-		_, dst2 := cell(fmt.Sprintf("(elem (sl_arr %s) %s)", r, c.add(c.add(fmt.Sprintf("(sl_off %s)", r), slen), "i!a")))
+		// content of the result, element by element (pattern on the clean term (sidx r k))
+		_, dst := cell(fmt.Sprintf("(sidx %s k!a)", r))
+		_, src := cell(fmt.Sprintf("(sidx %s k!a)", s.T))
 		var srcv string
 		if xIsStr {
 			c.needBat()
-			srcv = fmt.Sprintf("(bat %s i!a)", x.T)
+			srcv = fmt.Sprintf("(bat %s %s)", x.T, c.sub("k!a", slen))
 		} else {
-			_, src2 := cell(fmt.Sprintf("(elem (sl_arr %s) %s)", x.T, c.add(fmt.Sprintf("(sl_off %s)", x.T), "i!a")))
+			_, src2 := cell(fmt.Sprintf("(sidx %s %s)", x.T, c.sub("k!a", slen)))
 			srcv = fmt.Sprintf("(select %s %s)", oldC, src2)
 		}
-		c.factUnder(st.pc, fmt.Sprintf("(forall ((i!a %s)) (! (=> (and %s %s) (= (select %s %s) %s)) :pattern ((select %s %s))))",
-			is, c.le(c.idx(0), "i!a"), c.lt("i!a", xlen), newC, dst2, srcv, newC, dst2))
+		c.factUnder(st.pc, fmt.Sprintf("(forall ((k!a %s)) (! (=> (and %s %s) (= (select %s %s) (ite %s (select %s %s) %s))) :pattern ((sidx %s k!a))))",
+			is, c.le(c.idx(0), "k!a"), c.lt("k!a", newlen), newC, dst, c.lt("k!a", slen), oldC, src, srcv, r))
 		// frame
 		if !isStruct(et) {
 			lo := c.add(fmt.Sprintf("(sl_off %s)", r), slen)
